@@ -173,8 +173,11 @@ def model_curve_state(v):
     return (tuple(U), None if P is None else tuple(tuple(p) for p in P), None if W is None else tuple(W))
 
 
-def make_curve(U, P, W=None, scalar=None):
-    """real Curve from canonical data; 1-tuples become scalars unless scalar is False"""
+def make_curve(U, P, W=None, scalar=None, intknots=False):
+    """real Curve from canonical data; 1-tuples become scalars unless scalar is False;
+    intknots: an integer-valued knot vector is handed over as python ints"""
+    if intknots and all(frac(x).denominator == 1 for x in U):
+        U = [int(x) for x in U]
     if P is None:
         pts = None
     else:
@@ -286,6 +289,43 @@ def rand_kv(rng, p=None, nint=None, maxmult=None, interval=None, pmax=4, nintmax
     return U
 
 
+def rand_int_kv(rng, pmax=3, nintmax=3):
+    """clamped knot vector with integer values, unequal spans and mixed multiplicities"""
+    p = rng.randint(1, pmax)
+    a = rng.randint(-3, 3)
+    U = [F(a)] * (p + 1)
+    x = a
+    for _ in range(rng.randint(0, nintmax)):
+        x += rng.randint(1, 3)
+        U += [F(x)] * rng.randint(1, p)
+    x += rng.randint(1, 3)
+    return U + [F(x)] * (p + 1)
+
+
+def reducible_bezier(rng, dim=2):
+    """a single-span curve that `clean()` could simplify: a segment stored with degree 2/3, a parabola stored as a cubic,
+    or a rational Bezier with constant weights (dyadic data: exact as floats)"""
+    kind = rng.choice(["segment2", "segment3", "parabola3", "constweights"])
+    pt = lambda: tuple(F(rng.randint(-16, 16), 4) for _ in range(dim))      # noqa: E731
+    A, B, C = pt(), pt(), pt()
+    if A == B:
+        B = tuple(x + 1 for x in B)
+    W = None
+    if kind == "segment2":
+        P = [A, tuple((a + b) / 2 for a, b in zip(A, B)), B]
+    elif kind == "segment3":
+        P = [A, tuple(a + (b - a) * F(1, 4) * 1 for a, b in zip(A, B)), tuple(a + (b - a) * F(3, 4) for a, b in zip(A, B)), B]
+        P[1] = tuple(a + (b - a) * F(1, 3) for a, b in zip(A, B))
+        P[2] = tuple(a + (b - a) * F(2, 3) for a, b in zip(A, B))
+    elif kind == "parabola3":
+        P = [A, tuple((a + 2 * c) / 3 for a, c in zip(A, C)), tuple((2 * c + b) / 3 for c, b in zip(C, B)), B]
+    else:
+        P = [A, C, B]
+        W = [F(2)] * 3
+    p = len(P) - 1
+    return dict(U=[F(0)] * (p + 1) + [F(1)] * (p + 1), P=P, W=W), kind
+
+
 def kv_info(U):
     a = U[0]
     p = U.count(a) - 1
@@ -354,6 +394,7 @@ class Recorder:
         self.known = []
         self.t0 = time.time()
         self.notes = []
+        self.recent = []
 
     def count(self, bucket, key="n"):
         d = self.dist.setdefault(bucket, {})
@@ -364,11 +405,16 @@ class Recorder:
         if nontrivial:
             h = hashlib.sha1(json.dumps(case, sort_keys=True, default=str).encode()).hexdigest()
             self.keys.add(h)
+        self.recent.append(case)
+        if len(self.recent) > 16:
+            self.recent.pop(0)
         if len(self.samples) < 4 or (sample_every and self.evaluations % sample_every == 0 and len(self.samples) < 10):
             self.samples.append(case)
 
     def violation(self, what, case, **kw):
-        self.violations.append(dict(what=what, case=case, **kw))
+        # the cases run just before (same process, same library state): needed to replay history-dependent failures
+        hist = [c for c in self.recent if c is not case and c != case]
+        self.violations.append(dict(what=what, case=case, **kw, history=hist[-15:]))
 
     def mismatch(self, op, case, impl_out, model_out):
         self.mismatches.append(dict(op=op, case=case, impl=impl_out, model=model_out))
